@@ -59,8 +59,7 @@ def doneOracle (s : St) (bytes : Bytes) : List String :=
   let nb := numBlocks blockSize s.sz
   let missing := (List.range nb).filter fun i => !idx.contains i
   if !missing.isEmpty then [s!"C13 done-premature missing={showNatList missing}"] else
-  let expect := (List.range nb).flatMap fun i => ((s.answers.find? (·.1 = i)).map (·.2)).getD []
-  if expect = bytes then [] else ["C13 assembled-mismatch"]
+  if assembled blockSize s.sz s.answers = bytes then [] else ["C13 assembled-mismatch"]
 
 def step (s : St) (op implObs : String) : St × String × List String :=
   let toks := words op
